@@ -330,7 +330,7 @@ def memo_census(chk, rule, only=None):
 def memo_rule(chk, files):
     """MEMO: no cache in the anchored files beyond the tabled ones — a result that depends on what was computed before
     breaks every property that quantifies over histories / call sequences."""
-    chk.rule("MEMO", "every look-up-then-store (cache, registry, memo decorator) in the anchored files is a tabled one")
+    chk.rule("MEMO", "every look-up-then-store (cache, registry, memo decorator) in the anchored files and in the files of the DEP table is a tabled one")
     refs = {f.ref for f in chk.repo.all_funcs() if f.module.rel in files}
     memo_census(chk, "MEMO", only=refs)
 
